@@ -414,6 +414,12 @@ func (group *Group) delIn() {
 	group.stopRecordFlvIfNeeded()
 	group.stopRecordMpegtsIfNeeded()
 
+	if group.customizePubSession != nil {
+		// whoever holds the context may go on feeding it: from now on that is an error (ErrDisposedInStream), the
+		// data must not be forwarded as if it came from the input of this group
+		group.customizePubSession.Dispose()
+	}
+
 	group.rtmpPubSession = nil
 	group.rtspPubSession = nil
 	group.customizePubSession = nil
